@@ -29,6 +29,17 @@ Definition glv_decomp (r n11 n12 n21 n22 k : Z) : (bool * Z) * (bool * Z) :=
 (* the integer a (sign, magnitude) pair stands for *)
 Definition glv_signed (s : bool * Z) : Z := if fst s then snd s else - snd s.
 
+(* decidable sufficient condition on a GLV configuration (N, (r, lambda), (n11, n12), (n21, n22)):
+   both rows in the lattice, determinant r, column sums below r and below 2^(64N-1) *)
+Definition glv_basis_ok (c : nat * (Z * Z) * (Z * Z) * (Z * Z)) : bool :=
+  let '(N, (r, lambda), (n11, n12), (n21, n22)) := c in
+  (0 <? r) && (r <=? Wn N)
+  && ((n11 + lambda * n12) mod r =? 0) && ((n21 + lambda * n22) mod r =? 0)
+  && (n11 * n22 - n12 * n21 =? r)
+  && (Z.abs n11 + Z.abs n21 <? r) && (Z.abs n12 + Z.abs n22 <? r)
+  && (Z.abs n11 + Z.abs n21 <? 2 ^ (64 * Z.of_nat N - 1))
+  && (Z.abs n12 + Z.abs n22 <? 2 ^ (64 * Z.of_nat N - 1)).
+
 Section Glv.
   Context {R B : Type} (Ops : Gops R B).
 
